@@ -2,6 +2,8 @@ HOOK_COMMITS = ["6e09526", "e02e23f"]
 NOTES = ("All checks share one driver (./check <id>). Genuine defects repaired in /repo are the 'fix:' commits listed in "
          "known_findings.txt (fixed: lines); recorded, unrepaired defects are its 'known:' lines.")
 
+SPACE_NOTE = 'Trusted: Coq kernel + vm_compute; the real-number model (coq/Spaces/SpacesR.v) carries the theorems; the executable float model (coq/Spaces/SpacesF.v, line-by-line transcription on primitive binary64 floats, libm acos/sin as oracle tables supplied by the implementation run) is tied to the code bit-for-bit on every run; float vs real is a sampled link within the stated tolerances (rational/60-digit reference), not a global error theorem. Standard-library real-number axioms (ClassicalDedekindReals.sig_forall_dec, sig_not_dec, functional_extensionality_dep, Classical_Prop.classic).'
+
 PLANNER_NOTE = ("Trusted: Coq kernel + vm_compute; the hand-written planner model (coq/Planners/Model.v) is tied to the code by the "
                 "differential correspondence run on every check (all four planners, six real spaces + adversarial table spaces), "
                 "not by a translator; rand/ChaCha/libm/Instant are modelled as oracles. Theorems are generic in the space, world, "
@@ -144,6 +146,69 @@ CHECKS = {
         "design_ref": "DESIGN.md section 7 C18",
         "note": PLANNER_NOTE + " HashMap is used only for keyed lookups (modelled as an association list).",
         "technique": "Coq proof (roadmap invariant, BFS soundness and completeness) + snapshot correspondence by vm_compute",
+    },
+    "C04": {
+        "category": "proof",
+        "text": "Partial. Theorems C04_* (coq/Props/C04.v): for every region B containing the start states, all goal samples and all "
+                "uniform samples and closed under the steering step interpolate(a, q, max/d), every state of every returned path of all four "
+                "planners lies in B, for every API history (invariant: every stored node is in B). Real-model space theorems: boxes are convex "
+                "under linear interpolation; SO(2) intervals of span <= PI are convex under short-arc interpolation. The property as stated "
+                "('intervals of any span, rotation cones') is FALSE of the code: C04_refuted_so2_span_gt_pi and C04_refuted_so3_cone are proved "
+                "witnesses; the SO(2) class is reproduced on the real planners (known finding). NOT proved: convexity of SO(3) cones of radius "
+                "< PI/2. Direct oracle: satisfies_bounds (+1e-9) on every state of every real path.",
+        "design_ref": "DESIGN.md section 7 C04, section 8 row 4",
+        "note": PLANNER_NOTE + " 'Up to rounding': the float steering step is tied to the real convexity theorems only by the sampled oracle.",
+        "technique": "Coq proof (region invariant over API histories + real-model convexity theorems, refutation witnesses) + correspondence",
+    },
+    "C09": {
+        "category": "proof",
+        "text": "Theorems C09_* (coq/Props/C09.v) on the real-number model of the spaces, for ALL inputs: non-negativity, d(a,a)=0, symmetry, "
+                "triangle inequality for R^n (Minkowski), SO(2) (|wrap(a-b)| = acos cos, acos-triangle lemma), SO(3) (Gram / Cauchy-Schwarz "
+                "on unit quaternions) and weighted-l2 compounds; invariance under +2k pi and q -> -q; d <= pi on SO(2)/SO(3); zero distance "
+                "iff same configuration. The implementation is tied to the executable float model bit-for-bit on an exhaustive special-value "
+                "lattice + random states (all dimensions / weights / layouts, malformed stream separate) and checked against an independent "
+                "60-digit evaluation of the real model within the stated tolerances; metric axioms evaluated on all generated triples.",
+        "design_ref": "DESIGN.md section 7 C09, section 3.3",
+        "note": SPACE_NOTE,
+        "technique": "Coq proof on a real-number model + bit-exact float-model correspondence by vm_compute + sampled float/real link",
+    },
+    "C10": {
+        "category": "proof",
+        "text": "Theorems C10_* (coq/Props/C10.v), real-number model, all inputs: interp(a,b,0)=a, interp(a,b,1)=b (SO(2): same angle mod 2pi; "
+                "SO(3): q or -q), d(a,interp)=t d(a,b) and d(interp,b)=(1-t) d(a,b) for t in [0,1] (R^n; SO(2) incl. seam crossings, "
+                "non-canonical inputs and the antipodal tie; SO(3) SLERP), canonical results (angle in [-pi,pi), unit quaternion), reversal; "
+                "compounds lift by homogeneity of the weighted l2 norm. The normalised-LERP branch (dot > 0.9995) is proved unit with exact "
+                "end points; its speed deviation (<= 1.1e-6 arc length) is a sampled bound, not a theorem. Bit-exact float-model "
+                "correspondence on the lattice (seams, antipodes, dots around 0 / 0.9995 / negative) + 60-digit reference + law oracle.",
+        "design_ref": "DESIGN.md section 7 C10, section 3.3",
+        "note": SPACE_NOTE,
+        "technique": "Coq proof on a real-number model + bit-exact float-model correspondence by vm_compute + sampled float/real link",
+    },
+    "C13": {
+        "category": "proof",
+        "text": "The float model of a compound space IS the documented law (fold of the component models: weighted l2 for distance and "
+                "resolution, component-wise interpolate / sample / enforce / satisfies; SE(2)/SE(3) = compound with weights (1,w)): theorems "
+                "C13_* (coq/Props/C13.v) make the law explicit, prove SE(2)/SE(3) constructors return exactly that compound, and lift the "
+                "metric / constant-speed / monotonicity properties from the components (real model). That the CODE follows the law is the "
+                "bit-exact correspondence of every operation of CompoundStateSpace / SE2StateSpace / SE3StateSpace on all generated layouts "
+                "(1-4 components from R^n, SO(2), SO(3); weights 0, tiny, 1, large; mismatched layouts must panic) plus a direct oracle that "
+                "recombines the real component spaces' results bit-for-bit.",
+        "design_ref": "DESIGN.md section 7 C13",
+        "note": SPACE_NOTE,
+        "technique": "Coq proof (law + lifting theorems) + bit-exact float-model correspondence by vm_compute",
+    },
+    "C14": {
+        "category": "proof",
+        "text": "Partial (explicitly): Haar-uniformity is a measure-theoretic statement and no measure library is installed. Proved / checked: "
+                "(a) the sampler as an exact function of the u64 stream (rand's random_range map, consumption order, SO(3) ball rejection and "
+                "cone test) - bit-exact against the code under a scripted generator; (b) over R the map u -> lo + u(hi-lo) is affine, strictly "
+                "monotone with range [lo,hi), hence each coordinate/angle follows the uniform law of the 2^52 grid (counting lemma); "
+                "(c) normalising an accepted ball point gives a unit quaternion; components use disjoint draws; (d) goodness-of-fit (KS at "
+                "significance 1e-9: coordinates, angle, rotation angle (theta - sin theta)/pi, axis direction, cone-conditioned angle, "
+                "independence) on the real sampler as supporting evidence - a test, not a proof.",
+        "design_ref": "DESIGN.md section 7 C14",
+        "note": SPACE_NOTE + " 'Rotation-invariant law on S^3 = Haar measure' is cited, not proved.",
+        "technique": "Coq proof of the sampler's structure + bit-exact correspondence under a scripted generator + statistical exploration",
     },
 }
 NOT_APPLICABLE = {}
